@@ -164,3 +164,36 @@ def run(ctx, crate="c01x"):
     if r.returncode != 0 and got == want:
         ctx.violation("direct:extra-run", {"what": f"driver exit code {r.returncode}: {r.stderr[-1200:]}", "lib_rs": BRIDGE}, True)
     return n * 11
+
+
+# a writer next to a success value: the macro exports a function that takes the DiplomatWrite, so the header either declares
+# it or the tool refuses the method; a prototype without the parameter is an ABI mismatch
+WRITE_AND_VALUE = """#[diplomat::bridge]
+mod ffi {
+    use diplomat_runtime::DiplomatWrite;
+    #[diplomat::opaque]
+    pub struct Op(pub u8);
+    impl Op {
+        pub fn %s(&self, out: &mut DiplomatWrite) -> %s { todo!() }
+        pub fn plain(&self, out: &mut DiplomatWrite) {}
+    }
+}
+"""
+
+
+def run_write_and_value(ctx):
+    d = os.path.join(BUILD, "e2e", "c01wv"); os.makedirs(d, exist_ok=True)
+    n = 0
+    for name, ret in (("describe", "usize"), ("describe_checked", "Result<u8, ()>"), ("describe_opt", "Option<u8>")):
+        src = WRITE_AND_VALUE % (name, ret)
+        path = os.path.join(d, f"{name}.rs"); open(path, "w").write(src)
+        q = e2e.run_tool("c", path, os.path.join(d, "out"))
+        n += 1
+        if q.returncode != 0:
+            continue            # refused at lowering: nothing is generated
+        proto = re.search(r"\bOp_%s\(([^)]*)\)" % name, open(os.path.join(d, "out", "Op.h")).read())
+        if proto is None or "DiplomatWrite" not in proto.group(1):
+            ctx.violation("direct:write-and-value", {"what": f"`fn {name}(&self, out: &mut DiplomatWrite) -> {ret}` is accepted; the macro exports Op_{name}(self, write) but the C header "
+                                                     f"declares Op_{name}({proto.group(1) if proto else '?'}): Rust reads its second argument from whatever the caller left there",
+                                                     "lib_rs": src}, True)
+    return n
